@@ -130,7 +130,16 @@ static void equivcache(const J &sc, Emitter &out)
     for (auto &q : sc["queries"].a) {
         auto a = vars[static_cast<size_t>(q[1].num())];
         auto b = vars[static_cast<size_t>(q[2].num())];
-        bool r = q[0].str() == "am" ? am->areEquivalentVariables(a, b) : a->hasEquivalentVariable(b, true);
+        bool r;
+        if (q[0].str() == "cut") {
+            r = Variable::removeEquivalence(a, b);
+            am = someAnalyserModel(); // an analyser model describes the variables as they were when it was made
+        } else if (q[0].str() == "join") {
+            r = Variable::addEquivalence(a, b);
+            am = someAnalyserModel();
+        } else {
+            r = q[0].str() == "am" ? am->areEquivalentVariables(a, b) : a->hasEquivalentVariable(b, true);
+        }
         answers.push(J(r));
     }
     ev.set("n", J(n)).set("edges", sc["edges"]).set("queries", sc["queries"]).set("answers", answers).set("placed", J(placed));
